@@ -105,7 +105,7 @@ func ruleFilePlugin(c *Ctx, prefix string) {
 				}
 				n++
 				v := ex.Canon(st, s.Val).S
-				m := regexp.MustCompile(`^(` + reQ(pkgF) + `\.LoadDHCPv[46]Records@t\d+\(.*\))#0$`).FindStringSubmatch(v)
+				m := regexp.MustCompile(`^(` + reQ(pkgF) + `\.LoadDHCPv[46]Records@(?:[\w$]+·)?t\d+\(.*\))#0$`).FindStringSubmatch(v)
 				if m == nil {
 					bad = append(bad, "the served table is replaced by something other than a loader's result: "+shortName(stripAt(v)))
 					return
@@ -180,8 +180,8 @@ func ruleFileLoader(c *Ctx, prefix string, fn *ssa.Function, v6 bool) {
 			hdr = h
 		}
 	}
-	line := `conv<string>\(bytes\.Split(@t\d+)?\(os\.ReadFile(@t\d+)?\(\$0\)#0,[^)]*\)\[\(φt\d+ \+ 1\)\]\)`
-	fields := `strings\.Fields(@t\d+)?\(` + line + `\)`
+	line := `conv<string>\(bytes\.Split(@(?:[\w$]+·)?t\d+)?\(os\.ReadFile(@(?:[\w$]+·)?t\d+)?\(\$0\)#0,[^)]*\)\[\(φ(?:[\w$]+·)?t\d+ \+ 1\)\]\)`
+	fields := `strings\.Fields(@(?:[\w$]+·)?t\d+)?\(` + line + `\)`
 	iters, nIns := 0, 0
 	ex.Hooks.Label = func(st *State, in ssa.Instruction) string {
 		if in == ssa.Instruction(ins) {
@@ -198,10 +198,10 @@ func ruleFileLoader(c *Ctx, prefix string, fn *ssa.Function, v6 bool) {
 		}
 		nIns++
 		empty, _ := histEq(st, regexp.MustCompile(`^len\(`+line+`\)$`), "0")
-		comment, _ := histFact(st, "bool", regexp.MustCompile(`^strings\.HasPrefix(@t\d+)?\(`+line+`,"#"\)$`))
+		comment, _ := histFact(st, "bool", regexp.MustCompile(`^strings\.HasPrefix(@(?:[\w$]+·)?t\d+)?\(`+line+`,"#"\)$`))
 		two, _ := histEq(st, regexp.MustCompile(`^len\(`+fields+`\)$`), "2")
-		macOK, _ := histFact(st, "nil", regexp.MustCompile(`^net\.ParseMAC(@t\d+)?\(`+fields+`\[0\]\)#1$`))
-		ip := `net\.ParseIP(@t\d+)?\(` + fields + `\[1\]\)`
+		macOK, _ := histFact(st, "nil", regexp.MustCompile(`^net\.ParseMAC(@(?:[\w$]+·)?t\d+)?\(`+fields+`\[0\]\)#1$`))
+		ip := `net\.ParseIP(@(?:[\w$]+·)?t\d+)?\(` + fields + `\[1\]\)`
 		to4nil, _ := histFact(st, "nil", regexp.MustCompile(`^\(net\.IP\)\.To4\(`+ip+`\)$`))
 		to16nil, _ := histFact(st, "nil", regexp.MustCompile(`^\(net\.IP\)\.To16\(`+ip+`\)$`))
 		fam := not3(to4nil)
@@ -212,7 +212,7 @@ func ruleFileLoader(c *Ctx, prefix string, fn *ssa.Function, v6 bool) {
 			addg(fmt.Sprintf("a record is stored for a line that is not shown to be non-empty, not a comment, exactly two fields, a valid MAC and an address of the right family (non-empty=%s not-comment=%s two-fields=%s mac-ok=%s family-ok=%s)", tri(not3(empty)), tri(not3(comment)), tri(two), tri(macOK), tri(fam)))
 		}
 		k := ex.Canon(st, ins.Key).S
-		if !regexp.MustCompile(`^\(net\.HardwareAddr\)\.String\(net\.ParseMAC(@t\d+)?\(` + fields + `\[0\]\)#0\)$`).MatchString(k) {
+		if !regexp.MustCompile(`^\(net\.HardwareAddr\)\.String\(net\.ParseMAC(@(?:[\w$]+·)?t\d+)?\(` + fields + `\[0\]\)#0\)$`).MatchString(k) {
 			addg("records are keyed by something other than HardwareAddr.String() of the parsed first field: " + shortName(stripAt(k)))
 		}
 		v := ex.Canon(st, ins.Value).S
@@ -229,7 +229,7 @@ func ruleFileLoader(c *Ctx, prefix string, fn *ssa.Function, v6 bool) {
 		}
 		iters++
 		empty, _ := histEq(st, regexp.MustCompile(`^len\(`+line+`\)$`), "0")
-		comment, _ := histFact(st, "bool", regexp.MustCompile(`^strings\.HasPrefix(@t\d+)?\(`+line+`,"#"\)$`))
+		comment, _ := histFact(st, "bool", regexp.MustCompile(`^strings\.HasPrefix(@(?:[\w$]+·)?t\d+)?\(`+line+`,"#"\)$`))
 		skip := or3(empty, comment)
 		switch {
 		case st.seen["ins+"]:
@@ -296,9 +296,9 @@ func ruleFileLookup(c *Ctx, prefix string, fn *ssa.Function, v6 bool, g *ssa.Glo
 	}
 	keyPat := `^\(net\.HardwareAddr\)\.String\(\$0\.ClientHWAddr\)$`
 	if v6 {
-		keyPat = `^\(net\.HardwareAddr\)\.String\(` + reQ(pkgDHCP6) + `\.ExtractMAC(@t\d+)?\(\$0\)#0\)$`
+		keyPat = `^\(net\.HardwareAddr\)\.String\(` + reQ(pkgDHCP6) + `\.ExtractMAC(@(?:[\w$]+·)?t\d+)?\(\$0\)#0\)$`
 	}
-	lookRe := regexp.MustCompile(`^lookup@t\d+\(` + reQ(g.String()) + `,`)
+	lookRe := regexp.MustCompile(`^lookup@(?:[\w$]+·)?t\d+\(` + reQ(g.String()) + `,`)
 	nLook := 0
 	ex.Hooks.Label = func(st *State, in ssa.Instruction) string {
 		switch x := in.(type) {
@@ -330,7 +330,7 @@ func ruleFileLookup(c *Ctx, prefix string, fn *ssa.Function, v6 bool, g *ssa.Glo
 					return
 				}
 				st.seen["iana"] = true
-				iaid, _ := st.ReadLocal("new@" + al.Name() + ".IaId")
+				iaid, _ := st.ReadLocal("new@" + anm(al) + ".IaId")
 				if !regexp.MustCompile(`OneIANA\(.*GetInnerMessage\(\$0\)#0\.Options\)\.IaId$`).MatchString(iaid) {
 					addb("the IA_NA in the reply does not carry the request IA_NA's IAID: " + shortName(iaid))
 				}
@@ -356,7 +356,7 @@ func ruleFileLookup(c *Ctx, prefix string, fn *ssa.Function, v6 bool, g *ssa.Glo
 		if !ok || len(ret.Results) != 2 {
 			return
 		}
-		found, _ := histFact(st, "bool", regexp.MustCompile(`^lookup@t\d+\(`+reQ(g.String())+`,.*\)#1$`))
+		found, _ := histFact(st, "bool", regexp.MustCompile(`^lookup@(?:[\w$]+·)?t\d+\(`+reQ(g.String())+`,.*\)#1$`))
 		r0 := ex.Resolve(st, ret.Results[0])
 		stop := false
 		if k, ok := ex.Resolve(st, ret.Results[1]).(*ssa.Const); ok && constStr(k) == "true" {
